@@ -30,6 +30,8 @@ const (
 type jobRec struct {
 	arg       string // tag name of a tagging job
 	spawnStep int
+	files     []string // index files served right after the step in which the job was spawned
+	filesSet  bool
 	kind, seq int
 	wfd       int
 	state     int
@@ -74,6 +76,7 @@ type Sim struct {
 	hang        string
 	draining    bool
 	restartSoon bool
+	hidden      bool
 	drainN      int
 
 	watchdogMS int
